@@ -77,12 +77,17 @@ def classify_crash(rc, err):
     return "CRASH:rc%s" % rc
 
 
-def run_tool(argv, stdin=b"", timeout=60, env=None, cwd=None):
+def run_tool(argv, stdin=b"", timeout=60, env=None, cwd=None, stdin_file=None):
     """Run a real binary; returns (status, stdout, stderr) with status an int exit code,
-    'sig<N>' for a signal, or 'HANG'."""
+    'sig<N>' for a signal, or 'HANG'.  stdin_file: path to attach as fd 0 (regular file -> mmap path)."""
     try:
-        p = subprocess.run(argv, input=stdin, stdout=subprocess.PIPE, stderr=subprocess.PIPE, timeout=timeout,
-                           env=env, cwd=cwd)
+        if stdin_file is not None:
+            with open(stdin_file, "rb") as fh:
+                p = subprocess.run(argv, stdin=fh, stdout=subprocess.PIPE, stderr=subprocess.PIPE, timeout=timeout,
+                                   env=env, cwd=cwd)
+        else:
+            p = subprocess.run(argv, input=stdin, stdout=subprocess.PIPE, stderr=subprocess.PIPE, timeout=timeout,
+                               env=env, cwd=cwd)
     except subprocess.TimeoutExpired as e:
         return "HANG", e.stdout or b"", e.stderr or b""
     st = p.returncode
